@@ -45,13 +45,13 @@ def run (s : Sexp) : String :=
       -- settings are admissible. Repaired in /repo: F-C05-2 (9a6f576), F-C05-4 (453154d),
       -- F-C05-5 (76e196d): `from_dao` is the copy that never memoises the intermediate (stale := false), and no
       -- temporary-parent collision or lost-parent variant is admissible any more.
-      let qs : List StoreQuirks := bools.flatMap fun a => bools.map fun b => ⟨a, b, false⟩
+      -- F-C05-1 is repaired in /repo (492980c, remote_side generated): selfRef is off in every admissible model
+      let qs : List StoreQuirks := bools.map fun b => ⟨false, b, false⟩
       let results := qs.flatMap fun q => (if q.selfRef then os else os.take 1).map fun o =>
         persistReload q o unmap c.via c.heap c.roots
       let distinct := dedupStrings (results.map showResult)
       let spec := canon c.heap c.roots ++ " rows:" ++ showCounts (specCounts c.heap c.roots)
-      let trig := (if trigSelfRef dh then ["F-C05-1"] else [])
-        ++ (if trigDup dh then ["F-C05-3"] else [])
+      let trig := (if trigDup dh then ["F-C05-3"] else [])
       let models := match distinct with
         | [] => "model=error:model"
         | m :: rest => "\t".intercalate (s!"model={m}" :: (rest.zipIdx.map fun (p : String × Nat) => s!"model_{p.2 + 1}={p.1}"))
